@@ -385,6 +385,9 @@ def closure_program(rng):
             caps.append(("let %s = \"%s\"" % (x, rng.choice(["a", "b", "zz"])), x))
         elif ty == "clo":
             caps.append(("let %s = |q: int32| q + %d" % (x, rng.choice([1, 10])), x))
+        elif ty == "fnv":
+            # a plain function value: an alias of a top-level function (no closure environment of its own)
+            caps.append(("let %s = %s" % (x, rng.choice(["inc3", "dbl"])), x))
         elif ty == "dyn":
             y = fresh("k")
             caps.append(("let %s: int32 = %d" % (y, rng.choice([4, 6]))  , y))
@@ -393,7 +396,12 @@ def closure_program(rng):
 
     def position(a, depth):
         """-> (statements, int expression)"""
-        k = rng.randrange(14)
+        k = rng.randrange(16)
+        if k == 14:
+            f = cap("fnv")  # only occurrence of the captured function value: the callee position
+            return [], "%s(%s(%s))" % (f, f, a) if rng.random() < 0.5 else "%s(%s)" % (f, a)
+        if k == 15:
+            return [], "(if %s > 1 { %s(%s) } else { %s })" % (a, cap("fnv"), a, a)
         if k == 0:
             return [], "(match %s { 0 => 1, 1 => 2, _ => %s })" % (a, cap("int"))
         if k == 1:
@@ -426,7 +434,7 @@ def closure_program(rng):
             return [], "(if %s { %s } else { %s })" % (cap("bool"), a, cap("int"))
         return [], "(ref_get(%s) + %s)" % (cap("ref"), a)
 
-    text = PRELUDE
+    text = PRELUDE + "fn inc3(x: int32) -> int32 { x + 3 }\nfn dbl(x: int32) -> int32 { x * 2 }\n"
     fdefs = []
     calls = []
     for i in range(rng.randint(1, 3)):
